@@ -1,13 +1,5 @@
 import Qvnt.Lemmas.GenCanon
 open Qvnt.GenCanon
-#print axioms int_new_canon
-#print axioms int_add_ast_canon
-#print axioms int_ast_changes_canon
-#print axioms int_process_nodes_canon
-#print axioms int_process_node_canon
-#print axioms int_process_apply_gate_canon
-#print axioms int_process_gate_canon
-#print axioms int_process_if_canon
 #print axioms int_struct_canon
 #print axioms macro_struct_canon
 #print axioms macro_argument_name_canon
